@@ -3323,7 +3323,10 @@ def resolve_packs(items):
             new_items.append(item)
             continue
 
-        data = struct.pack(item.fmt, item.imm)
+        try:
+            data = struct.pack(item.fmt, item.imm)
+        except struct.error as e:
+            raise AssemblerError(str(e), item.line)
         blob = Blob(item.line, data)
         new_items.append(blob)
 
